@@ -27,10 +27,14 @@ def gen_pair(rng, nlat):
     guide = [pexpr(i) for i in range(nlat)]
     lat = [pexpr(i) for i in range(nlat)]
     obs = [[pexpr(nlat), rng.random() < 0.5] for _ in range(rng.randint(1, 2))]
-    return {"params": [fr_json(v) for v in vals], "guide": guide, "lat": lat, "obs": obs}
+    # a latent the guide does NOT propose and nothing depends on ("z", a leaf of the model): Importance draws it from the
+    # model and its density is no part of the importance weight, so the ELBO and its gradient estimate are those of the
+    # pair without it — for every key, whatever value is drawn (used by the ELBO runs of every second pair)
+    decoy = pexpr(nlat)
+    return {"params": [fr_json(v) for v in vals], "guide": guide, "lat": lat, "obs": obs, "decoy": decoy}
 
 
-def realise_pair(pair, guide_prim="flip_enum"):
+def realise_pair(pair, guide_prim="flip_enum", decoy=False):
     import jax.numpy as jnp
     import genjax
     from genjax import ChoiceMapBuilder as C
@@ -49,6 +53,8 @@ def realise_pair(pair, guide_prim="flip_enum"):
         benv = []
         for i, pe in enumerate(pair["lat"]):
             benv.append(genjax.flip(ev(pe, params, benv)) @ f"x{i}")
+        if decoy and pair.get("decoy") is not None:
+            _ = genjax.flip(ev(pair["decoy"], params, benv)) @ "z"
         for j, (oe, _) in enumerate(pair["obs"]):
             _ = genjax.flip(ev(oe, params, benv)) @ f"y{j}"
 
@@ -74,7 +80,7 @@ def realise_pair(pair, guide_prim="flip_enum"):
 def run_vi(pair, which, seed, guide_prim="flip_enum"):
     import jax
     import genjax
-    guide, mk = realise_pair(pair, guide_prim)
+    guide, mk = realise_pair(pair, guide_prim, decoy=(which == "elbo" and seed % 2 == 1))
     params = tuple(float(fr_of(v)) for v in pair["params"])
     try:
         if which == "elbo": f = genjax.vi.ELBO(guide, mk)
